@@ -4,7 +4,8 @@
    events = the client-observable history of running `script` over a real connection, in the vocabulary of
             AccessLog!hist (<<op, outcome>>);
    recs   = the access-log records captured from the `vgi_rpc.access` logger while it ran, in emission order,
-            projected to [mtype, method, sid, status, hasMsg, full, valid, cancelled]
+            projected to [mtype, method, sid, status, hasMsg, full, valid, cancelled, csid, chasMsg, cfull, cvalid]
+            (c... = the same fact read from the record as VgiAccessLogFormatter(max_record_bytes=2048) renders it)
             (sid: 0 = no stream_id, else a small number naming the distinct stream_id values by first appearance;
              hasMsg: error_message present and non-empty; full: it contains the server-side message;
              valid: the JSON-formatted record validates against access_log.schema.json).
@@ -36,10 +37,15 @@ Cl(name, ok) == IF ok THEN {} ELSE {name}
 Free(R) ==      Cl("SchemaValid", \A i \in Idx(R) : R[i].valid)
            \cup Cl("ErrorMessageNonEmpty", MsgNonEmpty(R))
            \cup Cl("ErrorMessageFull", MsgFull(R))
+           \* the record as rendered by the repo's formatter under a small per-record size cap
+           \cup Cl("SchemaValidCapped", \A i \in Idx(R) : R[i].cvalid)
+           \cup Cl("ErrorMessageNonEmptyCapped", \A i \in Idx(R) : R[i].status = "error" => R[i].chasMsg)
+           \cup Cl("ErrorMessageFullCapped", \A i \in Idx(R) : R[i].status = "error" => R[i].cfull)
 Aligned(R) == LET same == Len(R) = Len(alog) IN
                 Cl("CountMatches", same)
            \cup Cl("StatusMatches", same => StatusOK(R, alog, outc))
            \cup Cl("OneStreamId", same => SidOK(R, alog))
+           \cup Cl("OneStreamIdCapped", same => SidOKc(R, alog))
            \cup Cl("RecordsAlign", same => \A i \in Idx(R) : R[i].mtype = alog[i].mtype /\ R[i].cancelled = alog[i].cancelled)
 Track == /\ IsPrefix
          /\ TLCSet(3 * tid + 2, IF TLCGet(3 * tid + 2) < Len(hist) THEN Len(hist) ELSE TLCGet(3 * tid + 2))
